@@ -2403,10 +2403,19 @@ def run(chk: core.Check):
     # the required branches must be reached by the generators themselves, not by the stored cases
     chk.extra["corpus_branches"] = dict(chk.branches)
     chk.branches = {}
+    import time
+    sect = chk.extra.setdefault("section_cpu_s", {})
+
+    def timed(name, t0):
+        sect[name] = round(sect.get(name, 0) + time.process_time() - t0, 1)
+        return time.process_time()
+    t = time.process_time()
     run_whole(chk, run_perm_helpers, "perm-helper")
     run_whole(chk, run_bubble, "bubble")
+    t = timed("perms", t)
     for _ in range(chk.pick(700, 4000)):
         run_part(chk, "inverse", gen_inv_case(rng, chk))
+    t = timed("inverse", t)
     for i in range(chk.pick(800, 3000)):
         case = gen_simp_case(rng, chk)
         run_part(chk, "simplify", case)
@@ -2416,22 +2425,27 @@ def run(chk: core.Check):
     chk.extra["shift_cases"] = len(shift_cases)
     for case in shift_cases:
         run_part(chk, "simplify", case)
+    t = timed("simplify", t)
     for _ in range(chk.pick(450, 2500)):
         run_part(chk, "flatten", gen_flat_case(rng, chk))
+    t = timed("flatten", t)
     for _ in range(chk.pick(300, 1500)):
         run_part(chk, "copy", gen_copy_case(rng, chk))
+    t = timed("copy", t)
     # runs of consecutive permutations in every relation of their mode ranges
     for i in range(chk.pick(300, 1500)):
         case = gen_simp_perm_runs(rng, chk)
         run_part(chk, "simplify", case)
         if i % 4 == 0:
             run_part(chk, "decompose", case)
+    t = timed("perm-runs", t)
     # histories on one object: every ordered pair of transformations, then free histories
     for pair in CHAIN_PAIRS:
         for _ in range(chk.pick(4, 16)):
             run_part(chk, "chain", gen_chain_case(rng, chk, pair))
     for _ in range(chk.pick(150, 800)):
         run_part(chk, "chain", gen_chain_case(rng, chk))
+    t = timed("chain", t)
 
 
 def replay(chk, data):
